@@ -89,6 +89,11 @@ TEMPLATES: list[list[Seg]] = [
     T(("text", "a"), tag("ifchanged"), out("x"), tag("endifchanged"), tag("ifchanged"), out("x"), tag("endifchanged")),
     T(tag("tablerow i in a"), out("i"), tag("endtablerow")),
     T(tag("render 'p'"), tag("include 'p'")),
+    # a liquid tag with a comment LINE: with template comments enabled the line-comment marker inside
+    # {% liquid %} is the comment start string without its braces (anchor: "liquid tag derives its comment
+    # marker from comment_start_string"), so it is rewritten together with the comment delimiters
+    T(("liqc", ["assign s = x", "\x00 a note", "echo s", "\x00", "echo 'e'"]), ("text", "z"), ("com", " c ", "")),
+    T(("text", "a "), ("liqc", ["\x00 only a note"]), ("com", "c", ""), out("x")),
 ]
 RICH_TEMPLATES: list[list[Seg]] = [
     T(out("x | upcase")),
@@ -118,6 +123,10 @@ def print_template(segs: list[Seg], d: tuple[str, ...]) -> str:
             buf.append(f"{cs}{s[1]}{s[2]}{ce}")
         elif k == "raw":
             buf.append(f"{ts} raw {te}{s[1]}{ts} endraw {te}")
+        elif k == "liqc":
+            marker = cs.replace("{", "")
+            lines = "\n".join(ln.replace("\x00", marker) for ln in s[1])
+            buf.append(f"{ts} liquid\n{lines}\n{te}")
     return "".join(buf)
 
 
@@ -125,12 +134,16 @@ def template_chars(segs: list[Seg]) -> set[str]:
     chars: set[str] = set()
     for s in segs:
         for part in s[1:]:
-            chars |= set(part)
-    return chars | set("raw end")
+            if isinstance(part, list):
+                for ln in part:
+                    chars |= set(ln.replace("\x00", ""))
+            else:
+                chars |= set(part)
+    return chars | set("raw end liquid")
 
 
 def uses_comments(segs: list[Seg]) -> bool:
-    return any(s[0] == "com" for s in segs)
+    return any(s[0] in ("com", "liqc") for s in segs)
 
 
 # -- the non-collision predicate -------------------------------------------------------------
